@@ -26,4 +26,9 @@ def generator_family(tier='quick'):
                  'packet Order {\n    u8 Kind,\n    match Kind as Detail {\n        2 : Limit,\n        1 : Market,\n        [9, 4] : Stop,\n    },\n}\n\npacket Cancel {\n    Order Orig,\n}\n\npacket Limit {\n    u64 Price,\n}\n\npacket Market {\n    u32 Qty,\n}\n\npacket Stop {\n    u64 Trigger,\n}\n'))
     out.append(T('g:acronym_names', 'options {\n    GoPackage = "msg";\n    GoModule = "example.com/msg";\n    JavaPackage = "com.x";\n}\n\nroot packet Frame {\n    u16 MsgType,\n    match MsgType as Body {\n        1 : NewOrderACK,\n        2 : Logout,\n    },\n}\n\n'
                  'packet NewOrderACK {\n    u32 OrderId,\n    repeat QuoteACK,\n    SBEHeader,\n}\n\npacket QuoteACK {\n    u64 Price,\n}\n\npacket SBEHeader {\n    u16 BlockLen,\n}\n\npacket Logout {\n    u32 UserId,\n}\n'))
+    H = 'options {\n    GoPackage = "msg";\n    GoModule = "example.com/msg";\n    JavaPackage = "com.x";\n}\n\n'
+    out.append(T('g:lowercase_packets', H + 'root packet Frame {\n    u8 k,\n    match k as body {\n        1 : heartbeat,\n        2 : Logon,\n        3 : _private,\n    },\n}\n\npacket heartbeat {\n    u32 seq,\n}\n\npacket Logon {\n    string user,\n}\n\npacket _private {\n    u8 x,\n}\n'))
+    out.append(T('g:rootless_single', H + 'packet Ping {\n    u32 Seq,\n    string Note,\n}\n', wellformed=False))
+    out.append(T('g:reserved_field_names', H + 'root packet Frame {\n    u16 Kind,\n    char[8] Encode,\n    u32 Decode,\n    string String,\n    u8 Size,\n    repeat u16 Len,\n    Inner Type,\n}\n\npacket Inner {\n    u8 encode,\n    u8 Equals,\n    u8 Buf,\n}\n'))
+    out.append(T('g:shared_packet', H + 'root packet Frame {\n    u8 k,\n    Leg first,\n    match k as body {\n        1 : Leg,\n        2 : Pair,\n    },\n    repeat Leg rest,\n}\n\npacket Pair {\n    Leg a,\n    Leg b,\n}\n\npacket Leg {\n    u16 q,\n    char[4] sym,\n}\n'))
     return out
